@@ -18,8 +18,8 @@ def check(ctx, adt=T.ANIM_ADT):
     inst = body["path"]
     seen = set()
     for p in paths:
-        has = [v for (c, v, s) in p.conds if c[0] == "discr" and c[1][0] == "optref-of"
-               and ("entry", init("current_state")) in c[1][2]]
+        hd = T.entry_decision(p, R, init("current_state"))
+        has = [] if hd is None else [hd]
         if has == [0]:
             seen.add(0)
             ctx.ob("R1", inst + "/no-timeline", p.ret == pse.mk_bool(True) and p.outcome == "return",
